@@ -159,28 +159,72 @@ impl<T: Transcript> Transcript for RecT<T> {
 }
 
 /// Recording transcript hash: wraps any `TranscriptHash` (for code paths that
-/// hard-wire `CircuitTranscript<H>`, like `midnight_zk_stdlib::{prove, verify}`).
+/// hard-wire `CircuitTranscript<H>`, like `midnight_zk_stdlib::{prove, verify,
+/// batch_verify}`). Every hasher created by `init` gets a fresh id; events are
+/// (id, op) in program order.
 #[derive(Clone)]
-pub struct RecH<H: TranscriptHash>(pub H);
+pub struct RecH<H: TranscriptHash>(pub H, pub usize);
 
 thread_local! {
-    pub static HREC: RefCell<Vec<(&'static str, usize)>> = const { RefCell::new(Vec::new()) };
+    pub static HREC: RefCell<(usize, Vec<(usize, &'static str)>)> = const { RefCell::new((0, Vec::new())) };
+}
+
+pub fn hrec_reset() {
+    HREC.with(|r| *r.borrow_mut() = (0, Vec::new()));
+}
+pub fn hrec_take() -> Vec<(usize, &'static str)> {
+    HREC.with(|r| std::mem::take(&mut r.borrow_mut().1))
 }
 
 impl<H: TranscriptHash> TranscriptHash for RecH<H> {
     type Input = H::Input;
     type Output = H::Output;
     fn init() -> Self {
-        HREC.with(|r| r.borrow_mut().push(("init", 0)));
-        RecH(H::init())
+        let id = HREC.with(|r| {
+            let mut r = r.borrow_mut();
+            let id = r.0;
+            r.0 += 1;
+            r.1.push((id, "init"));
+            id
+        });
+        RecH(H::init(), id)
     }
     fn absorb(&mut self, input: &Self::Input) {
-        HREC.with(|r| r.borrow_mut().push(("absorb", 0)));
+        HREC.with(|r| r.borrow_mut().1.push((self.1, "absorb")));
         self.0.absorb(input)
     }
     fn squeeze(&mut self) -> Self::Output {
-        HREC.with(|r| r.borrow_mut().push(("squeeze", 0)));
+        HREC.with(|r| r.borrow_mut().1.push((self.1, "squeeze")));
         self.0.squeeze()
+    }
+}
+
+type B2 = blake2b_simd::State;
+impl Hashable<RecH<B2>> for midnight_curves::Fq {
+    fn to_input(&self) -> Vec<u8> {
+        <Self as Hashable<B2>>::to_input(self)
+    }
+    fn to_bytes(&self) -> Vec<u8> {
+        <Self as Hashable<B2>>::to_bytes(self)
+    }
+    fn read(buffer: &mut impl std::io::Read) -> std::io::Result<Self> {
+        <Self as Hashable<B2>>::read(buffer)
+    }
+}
+impl Hashable<RecH<B2>> for midnight_curves::G1Projective {
+    fn to_input(&self) -> Vec<u8> {
+        <Self as Hashable<B2>>::to_input(self)
+    }
+    fn to_bytes(&self) -> Vec<u8> {
+        <Self as Hashable<B2>>::to_bytes(self)
+    }
+    fn read(buffer: &mut impl std::io::Read) -> std::io::Result<Self> {
+        <Self as Hashable<B2>>::read(buffer)
+    }
+}
+impl Sampleable<RecH<B2>> for midnight_curves::Fq {
+    fn sample(out: Vec<u8>) -> Self {
+        <Self as Sampleable<B2>>::sample(out)
     }
 }
 
